@@ -204,9 +204,16 @@ pub fn check(a: &Arena, start: &Schedule) -> (Vec<(String, String)>, bool) {
         let vehicles = fleet.len() as i64;
         let cost: i64 = fleet.iter().map(|v| start.tour_of(*v).unwrap().costs() as i64).sum();
         let tname = &spec.types[t].id;
+        // the cost of a leg touching the overflow depot is a convention of the implementation: when the
+        // start solution uses that depot only the vehicle count is compared
+        let (ov_s, ov_e) = (a.nw.overflow_depot_idxs().1, a.nw.overflow_depot_idxs().2);
+        let uses_overflow = fleet.iter().any(|v| {
+            let t = start.tour_of(*v).unwrap();
+            t.first_node() == ov_s || t.last_node() == ov_e
+        });
         if vehicles != opt.vehicles {
             viol.push(("vehicle-count-not-minimal".to_string(), format!("type {}: start solution uses {} vehicles, the minimum is {}", tname, vehicles, opt.vehicles)));
-        } else if cost != opt.cost {
+        } else if cost != opt.cost && !uses_overflow {
             viol.push(("cost-not-minimal".to_string(), format!("type {}: start solution with {} vehicles costs {}, the minimum is {}", tname, vehicles, cost, opt.cost)));
         }
         // every unit decoded into one tour: coverage within bounds
